@@ -254,7 +254,7 @@ pub fn run() -> Report {
 /// "... a function of the data directory and the options only": the same directory and options named in different ways and
 /// run in different process environments. Full product callback (5) x range {whole, -s 1 -e 2} x --verify {off, on} x path
 /// form (absolute / relative / trailing slash / dot components / symbolic links / cwd inside the data directory / cwd = dump
-/// folder named "", ".", "./" / names with spaces, quotes, non-ASCII characters) x environment (names that are not UTF-8 are refused by the command-line parser with exit status 2 before anything is read: not a case of this property)
+/// folder named "", ".", "./" / names with spaces, quotes, non-ASCII characters / a path of more than 600 bytes) x environment (names that are not UTF-8 are refused by the command-line parser with exit status 2 before anything is read: not a case of this property)
 /// (plain, the verbosity options -v / -vv / -vvv, RAYON_NUM_THREADS unset, a non-English UTF-8 locale with TZ set, logging-related variables, a virtual monotonic clock advancing 4 s / 11 s / 0 s per query, the calendar clock at the epoch / the last 32-bit second / a leap day before midnight / beyond 2106, five other hash seeds (iteration order of the std hash maps), directory listings served in reversed / rotated order). The chain contains addresses whose totals exceed 2^53 and consist of one large and seven unit outputs.
 /// Compared with the absolute-path plain-environment run: exit status, every file of the dump folder, and the
 /// simplestats / opreturn output (log lines that print a path are dropped).
@@ -325,7 +325,7 @@ fn invocation_forms(rep: &mut Report, root: &std::path::Path) {
             if r0.code != Some(0) {
                 acc.count("note:reference-invocation-failed", 1);
             }
-            for form in 0..10u8 {
+            for form in [0u8, 1, 2, 3, 4, 5, 6, 7, 8, 9, 11] {
                 for (ename, evars, threads) in &envs {
                     if form == 0 && *ename == "plain" {
                         continue;
